@@ -79,6 +79,9 @@ class FileSystem(SimComponent):
         self._create_manager = RequestManager()
 
         def _create_file_action(request: List[Any], context: Any) -> RequestResponse:
+            if not request[2] and self.get_file(folder_name=request[0], file_name=request[1]):
+                # the file already exists and replacing it was not asked for: refuse rather than raise
+                return RequestResponse.from_bool(False)
             file = self.create_file(folder_name=request[0], file_name=request[1], force=request[2])
             if not file:
                 return RequestResponse.from_bool(False)
@@ -369,11 +372,14 @@ class FileSystem(SimComponent):
             # Use root folder if folder_name not supplied
             folder = self.get_folder("root")
 
-        file = self.get_file(folder, file_name)
+        file = folder.get_file(file_name)
+        if file and force:
+            # the existing file is replaced by the new one: it leaves the folder's live files
+            self.sys_log.info(f"Replacing {file_name}")
+            folder.remove_file(file)
+            file = None
         if file:
             self.sys_log.info(f"Cannot create file {file_name} as it already exists.")
-            if force:
-                self.sys_log.info(f"Replacing {file_name}")
         else:
             # Create the file and add it to the folder
             file = File(
